@@ -103,6 +103,7 @@ def replay_jobs(ctx, binary, profile, models, opts, shards_per_e=3):
             j = {"mode": "replay", "e": e, "beh": r["beh_path"], "vocab": os.path.join(WORK, "vocab.json"), "shard": s, "nshards": nsh, "start": 0,
                  "out": os.path.join(ctx.wd, "findings_%s.ndjson" % tag), "events": os.path.join(ctx.wd, "events_%s.ndjson" % tag),
                  "stats": os.path.join(ctx.wd, "stats_%s.ndjson" % tag), "hb": os.path.join(ctx.wd, "hb_%s" % tag),
+                 "unspec": os.path.join(ctx.wd, "unspec_%s_%s_%d.tsv" % (profile, key, s)),
                  "jobfile": os.path.join(ctx.wd, "job_%s.json" % tag), "seed": ctx.seed, "tier": ctx.tier}
             j.update(opts)
             j["samples"] = r.get("samples", [])
@@ -122,6 +123,28 @@ def collect(ctx, jobs, incidents):
                          "extra": {"behaviour": json.loads(line) if line else None}, "profile": j.get("profile")})
     return findings, stats
 
+def profile_diff(ctx, profiles):
+    """Calls whose value is not asserted must still behave identically in the two build profiles (C01/C06)."""
+    maps = []
+    for pr in profiles[:2]:
+        m = {}
+        for fn in os.listdir(ctx.wd):
+            if fn.startswith("unspec_%s_" % pr):
+                for line in open(os.path.join(ctx.wd, fn), errors="replace"):
+                    parts = line.rstrip("\n").split("\t")
+                    if len(parts) >= 5:
+                        m[parts[0]] = parts[1:]
+        maps.append(m)
+    out = []
+    for k, v in maps[0].items():
+        w = maps[1].get(k)
+        if w is not None and w[0] != v[0]:
+            out.append({"cat": "profile_diff", "e": v[1], "input": v[3], "ph": v[2], "ph_show": v[2], "expected": "same outcome in debug and release",
+                        "actual": "%s: %s / %s: %s" % (profiles[0], v[0], profiles[1], w[0]), "extra": {}})
+    if out:
+        log("profile differences on unasserted calls: %d" % len(out))
+    return out
+
 def sum_stats(stats, key):
     return sum(s.get(key, 0) for s in stats)
 
@@ -134,6 +157,7 @@ def merge_rules(stats):
 
 def grammar_check(ctx, cats, n_quick, n_thorough, opts, evals=EVALS, invs=None, level="model_checking", extra_cov=None, profiles=("debug", "release"), lexer=None):
     prop = ctx.prop
+    opt0 = opts[0] if isinstance(opts, list) else opts
     invs = invs if invs is not None else GRAMMAR_INV.get(prop, [])
     vlib.vocab_json()
     n_of = (lambda e: n_quick.get(e, n_quick["*"])) if ctx.quick() else (lambda e: n_thorough.get(e, n_thorough["*"]))
@@ -145,13 +169,22 @@ def grammar_check(ctx, cats, n_quick, n_thorough, opts, evals=EVALS, invs=None, 
     for profile in profiles:
         binary, bt = vlib.build_harness(profile)
         log("harness (%s) built in %ss" % (profile, bt))
-        jobs = replay_jobs(ctx, binary, profile, models, dict(opts, profile=profile))
-        incidents = vlib.supervise(binary, jobs)
+        passes = opts if isinstance(opts, list) else [opts]
+        jobs = []
+        for pi, po in enumerate(passes):
+            sel = {k: r for k, r in models.items() if not po.get("only_models") or any(k.startswith(x) or r.get("e") == x for x in po["only_models"])}
+            js = replay_jobs(ctx, binary, "%s_p%d" % (profile, pi), sel, dict(po, profile=profile))
+            jobs += js
+        incidents = []
+        for i in range(0, len(jobs), 16):
+            incidents += vlib.supervise(binary, jobs[i:i + 16])
         f, s = collect(ctx, jobs, incidents)
         all_findings += f
         all_stats += s
         log("replay (%s): %d calls, %d compared, %d matched, %d not asserted, %d findings" % (profile, sum_stats(s, "calls"), sum_stats(s, "compared"),
             sum_stats(s, "matched"), sum_stats(s, "not_asserted"), len(f)))
+    if len(profiles) > 1:
+        all_findings += profile_diff(ctx, profiles)
     mine = [f for f in all_findings if f.get("cat") in cats]
     others = {}
     for f in all_findings:
@@ -175,7 +208,7 @@ def grammar_check(ctx, cats, n_quick, n_thorough, opts, evals=EVALS, invs=None, 
            "evaluations": sum_stats(all_stats, "calls"), "distinct_nontrivial": sum_stats(all_stats, "nontrivial"),
            "compared": sum_stats(all_stats, "compared"), "matched": sum_stats(all_stats, "matched"), "not_asserted": sum_stats(all_stats, "not_asserted"),
            "not_asserted_rules": merge_rules(all_stats),
-           "rule": "every viable token-kind sequence of length <= N over each evaluator's complete kind vocabulary plus the foreign token (TLC, exhaustive), rendered with %d operand/spelling assignments x placeholders, in %s builds; non-trivial = distinct (evaluator,input,placeholder) whose tree has >= %d operator nodes (or, for rejected input, >= 2 tokens)" % (opts.get("assignments", 2), "/".join(profiles), opts.get("nontrivial_min_ops", 2)),
+           "rule": "every viable token-kind sequence of length <= N over each evaluator's complete kind vocabulary plus the foreign token (TLC, exhaustive), rendered with %d operand/spelling assignments x placeholders (boundary pools: exhaustive assignment up to the cap), in %s builds; non-trivial = distinct (evaluator,input,placeholder) whose tree has >= %d operator nodes (or, for rejected input, >= 2 tokens)" % (opt0.get("assignments", 2), "/".join(profiles), opt0.get("nontrivial_min_ops", 2)),
            "N": {e: r["N"] for e, r in models.items()}, "invariants_checked": invs + (LEXER_INV if lexer else []), "exhaustive": True,
            "samples": [x for s in all_stats for x in s.get("samples", [])][:8],
            "max_steps_per_char": max([s.get("max_ticks_ratio", 0) for s in all_stats] + [0]),
@@ -275,7 +308,11 @@ def trace_validate(ctx, event_files, cap=40000, chunk=4000, par=8, reset_between
 
 # ----------------------------------------------------------------------------------------------- checks
 def c01(ctx):
-    return grammar_check(ctx, {"panic", "abort"}, {"*": 4}, {"*": 6, "f64": 6}, {"assignments": 2, "full_placeholders": True, "event_every": 50, "event_cap": 2000}, invs=[])
+    q = ctx.quick()
+    return grammar_check(ctx, {"panic", "abort"}, {"*": 4}, {"*": 6, "f64": 6},
+                         [{"assignments": 2, "full_placeholders": True, "event_every": 50, "event_cap": 2000, "reject_suffixes": 2},
+                          {"assignments": 1, "boundary_pool": True, "full_placeholders": True, "max_assign": 200 if q else 4000, "event_every": 500, "event_cap": 1000}],
+                         invs=[], lexer={"alphabets": ["lit", "kw1", "kw2", "kw3", "ops"], "k_quick": 3, "k_thorough": 5})
 
 def c03(ctx):
     return grammar_check(ctx, {"ok_on_reject", "err_on_defined"}, {"*": 5}, {"*": 6, "f64": 7}, {"assignments": 2, "event_every": 100, "event_cap": 2000, "nontrivial_min_ops": 1, "reject_suffixes": 2},
@@ -302,7 +339,17 @@ def c20(ctx):
     return grammar_check(ctx, {"meta_subst"}, {"*": 4}, {"*": 5, "f64": 6},
                          {"assignments": 1, "extras": ["subst"], "event_every": 200, "event_cap": 1500, "nontrivial_min_ops": 1})
 
-CHECKS = {"C01": c01, "C03": c03, "C04": c04, "C12": c12, "C13": c13, "C14": c14, "C20": c20}
+def c06(ctx):
+    return grammar_check(ctx, {"value", "ok_on_semantic_err", "err_on_defined", "profile_diff"}, {"*": 5}, {"*": 6},
+                         {"assignments": 1, "boundary_pool": True, "full_placeholders": True, "max_assign": 700 if ctx.quick() else 6000,
+                          "event_every": 500, "event_cap": 2000, "nontrivial_min_ops": 1}, evals=["i64"], invs=[])
+
+def c09(ctx):
+    return grammar_check(ctx, {"value", "ok_on_semantic_err", "err_on_defined", "profile_diff"}, {"*": 5}, {"*": 6},
+                         {"assignments": 1, "boundary_pool": True, "full_placeholders": True, "max_assign": 700 if ctx.quick() else 6000,
+                          "event_every": 500, "event_cap": 2000, "nontrivial_min_ops": 1}, evals=["num"], invs=[])
+
+CHECKS = {"C06": c06, "C09": c09, "C01": c01, "C03": c03, "C04": c04, "C12": c12, "C13": c13, "C14": c14, "C20": c20}
 
 def replay(prop, path):
     f = json.load(open(path))
